@@ -517,7 +517,7 @@ impl fmt::Display for Term {
     }
 }
 
-fn base26_encode(mut n: u32) -> String {
+fn base26_encode(mut n: u128) -> String {
     let mut buf = Vec::<u8>::new();
     n += 1;
     while n > 0 {
@@ -540,11 +540,12 @@ fn show_precedence_cla(
     match term {
         Var(0) => "undefined".to_owned(),
         Var(i) => {
-            let i = *i as u32;
+            // indices are usize: compute the name's ordinal without truncation or overflow
+            let (i, depth) = (*i as u128, u128::from(depth));
             let ix = if i <= depth {
                 depth - i
             } else {
-                max_depth + i - depth - 1
+                u128::from(max_depth) + i - depth - 1
             };
             base26_encode(ix)
         }
@@ -553,7 +554,7 @@ fn show_precedence_cla(
                 format!(
                     "{}{}.{}",
                     LAMBDA,
-                    base26_encode(depth),
+                    base26_encode(u128::from(depth)),
                     show_precedence_cla(t, 0, max_depth, depth + 1)
                 )
             };
